@@ -33,14 +33,14 @@ TEXT = {
          "float arithmetic not modelled."),
  "C14": ("4.14", "Theorems (all beats, unbounded grid): exact construction, rounding lands on the 1/48 grid within 1/96, every rational within half a tick of n/48 rounds to n/48, the three-decimal text of every tick reads back as that tick (with 1/10000 slack for the float conversion). Tie: impl vs Lean model on rounding, str(), BeatValues; direct: typed exact arithmetic, str/from_str on every tick of a range, BeatValues and TimingData round trips.",
          "float(Fraction), '%.3f' and Decimal are CPython's (checked on the grid, not proved); 'result is again a Beat' is observed on every operator, not a theorem."),
- "C15": ("4.15", "Theorems: the source rule as an iff over all simfiles/charts (3^11 is a ∀), single source, offset default, displayed-BPM rule; the eleven properties and the 0.7 threshold pinned against the generated tables. Tie/direct: enumerated configurations with marker values.",
+ "C15": ("4.15", "Theorems: the source rule as an iff over all simfiles/charts (3^11 is a ∀), single source, offset default, displayed-BPM rule; the eleven properties and the 0.7 threshold pinned against the generated tables; timing_source and TimingData.__init__ translated from the source on every run and proved equal to the model (GenProps.source_rule, single_source). Tie/direct: enumerated configurations with marker values (SM simfiles carrying VERSION included), displayed BPM with warps over BPM segments, call-order histories.",
          "float()/Decimal() on plain decimal literals only."),
  "C16": ("4.16", "Theorems: every source property and chart kept, negative values refused, no invalid properties for SSC targets (generated table). Direct on the impl: timing and notes equal through the library's readers, nothing modified or shared, reload equality.",
          "aliasing/unmodified clauses are observed by the harness, not proved (value-semantics model)."),
  "C17": ("4.17", "Theorems: should-copy decision table for all behaviour mappings, first offending property, warps refused, totality on the claimed domain; defaults pinned against the generated tables. Direct: documented policy transcribed independently; all 1024 total mappings in thorough.",
          "chart keys outside the table and COPY_ANYWAY on chart kinds are known findings (bare KeyError)."),
- "C18": ("4.18", "Theorems over arbitrary operation histories: attribute = standard key or alias exactly when…, set/get, delete of absent, other keys and order unaffected, WF invariant, SM chart keeps its six keys and refuses add/remove. Tie: all op sequences to a bounded depth from 5 initial mappings per kind/alias + long random histories against a dictionary model and the Lean model.",
-         "OrderedDict is CPython's."),
+ "C18": ("4.18", "Theorems over arbitrary operation histories: attribute = standard key or alias exactly when…, set/get, delete of absent, other keys and order unaffected, WF invariant, SM chart keeps its six keys and refuses add/remove; equality (C18Eq): BaseSimfile.__eq__ modelled step by step as CPython evaluates it holds exactly between objects of the same class, the same item list and equal charts (never a mapping and a proper prefix of it). Tie: all op sequences to a bounded depth from 5 initial mappings per kind/alias + long random histories against a dictionary model and the Lean model; generated (object, variant) pairs compared under == / != with the equality model (views.eq).",
+         "OrderedDict (__eq__ included) is CPython's."),
  "C19": ("4.19", "Theorems: first listed .sm/.ssc by case-insensitive suffix, duplicate iff two of a kind, SSC preferred, pack = exactly the immediate sub-directories containing a simfile. Tie: random trees on native and in-memory filesystems with the real listing order; loader options observed at simfile.open.",
          "listdir/isdir are the filesystem's."),
  "C20": ("4.20", "Theorems: named file first (case-insensitive), else first listed pattern match, None iff none, answers are listing entries, music by extension, pack banner by extension priority; presets pinned to the modelled regex fragment. Direct: membership, existence, stability.",
